@@ -1,14 +1,29 @@
 #![allow(clippy::all)]
 mod alloc;
 mod explore;
+mod props;
 mod sched;
 mod selftest;
 
 #[global_allocator]
 static GLOBAL: alloc::CheckAlloc = alloc::CheckAlloc;
 
+pub fn histex_replay(_v: &serde_json::Value) -> i32 {
+    eprintln!("histex replay not available");
+    2
+}
+
 fn main() {
     let args: Vec<String> = std::env::args().collect();
+    let tier = {
+        let mut t = std::env::var("VERIF_TIER").unwrap_or_else(|_| "quick".into());
+        if let Some(i) = args.iter().position(|a| a == "--tier") {
+            if let Some(v) = args.get(i + 1) {
+                t = v.clone();
+            }
+        }
+        if t == "thorough" { props::Tier::Thorough } else { props::Tier::Quick }
+    };
     match args.get(1).map(|s| s.as_str()) {
         Some("selftest") => match selftest::run(false) {
             Ok(v) => {
@@ -20,8 +35,26 @@ fn main() {
                 std::process::exit(2);
             }
         },
+        Some("check") => {
+            let prop = args.get(2).expect("property id").clone();
+            if props::scenarios(&prop, tier).is_some() {
+                let st = match selftest::run(true) {
+                    Ok(v) => serde_json::json!({"ran": "short", "tests": v.as_array().map(|a| a.len()).unwrap_or(0), "all_ok": true}),
+                    Err(e) => {
+                        eprintln!("MACHINERY FAILURE: {}", e);
+                        std::process::exit(2);
+                    }
+                };
+                std::process::exit(props::check_a(&prop, tier, st));
+            }
+            eprintln!("unknown property {}", prop);
+            std::process::exit(2);
+        }
+        Some("replay") => {
+            std::process::exit(props::replay_file(args.get(2).expect("replay file")));
+        }
         _ => {
-            eprintln!("usage: sigmc selftest | check <ID> --tier quick|thorough | replay <file>");
+            eprintln!("usage: sigmc selftest | check <ID> [--tier quick|thorough] | replay <file>");
             std::process::exit(2);
         }
     }
